@@ -29,6 +29,27 @@ def run(chk):
             cfg["f_BH"] = cfg["f_BH"][:len(cfg["tout"])] + [0.0] * (len(cfg["tout"]) - len(cfg["f_BH"]))
         cfgs.append(cfg)
     outs = FR.run_many(cfgs)
+    # second stage: the same configurations at ages just after a stellar bin's lower edge turns off (the turn-off bin is then a thin
+    # sliver that still holds stars): ages are lifetimes of lower_edge * (1 + delta), from the model's own lifetime row and bin edges
+    import math
+    extra = []
+    for out in outs[: (10 if chk.tier == "quick" else 80)]:
+        if "error" in out or not out["converged"]:
+            continue
+        a0, a1, a2 = out["tms"]
+        lo = out["bins"][0][0]
+        cand = [float(x) for x in lo if a0 * math.exp(a1 * x ** a2) < 14000]
+        if not cand:
+            continue
+        c2 = {k_: v_ for k_, v_ in out["cfg"].items()}
+        edges = rng.sample(cand, min(len(cand), 2))
+        c2["tout"] = sorted(a0 * math.exp(a1 * (x * (1 + 10 ** rng.uniform(-5, -3.05))) ** a2) for x in edges)
+        if "f_BH" in c2:
+            c2["f_BH"] = [0.0] * len(c2["tout"])
+        extra.append(c2)
+    if extra:
+        outs = outs + FR.run_many(extra)
+        chk.count("runs at ages just after a bin edge turns off", len(extra))
     for out in outs:
         cfg = out["cfg"]
         if "error" in out:
